@@ -19,16 +19,23 @@ theorem decodeLoop_stop (mc : MCfg) (hook : Hook) (f insn : Nat) (st : DState) (
   rw [decodeLoop]
   simp [readByte, parseArg_46, Rd.pure, popUser, pop, hs, userOK_nm hm, bind, Except.bind, pure, Except.pure]
 
-/-- **C03 (round trip, protocols 1–5).** For every canonical value `v` without maps — None, bool,
-    int64, *big.Int, float64, string, ByteString, Bytes, []byte, Class, and lists, Tuples, Calls and
-    Refs of these nested to any depth — every protocol 1..5 and both StrictUnicode settings (the same
-    on both sides): if `Encode` returns no error, then `Decode` of exactly the bytes it wrote succeeds,
-    consumes all of them, and returns a value that represents `v` (`Rep`: identical in type and content;
-    ByteString comes back as string when StrictUnicode is off; big ints are fresh objects).  The decoder
-    may start from any state (memo and heap left by earlier pickles of the stream). -/
+/-- **C03 (round trip, protocols 1–5).** For every canonical value `v` — None, bool, int64, *big.Int,
+    float64 (any bit pattern, NaN payloads included), string, ByteString, Bytes, []byte, Class, and
+    lists, Tuples, Calls, Refs, builtin maps and Dicts of these nested to any depth (`canon`: payloads
+    below 2^32 / 2^31 bytes; a Call is not one of the bytes / bytearray forms the decoder interprets;
+    the keys of each map / Dict literal are acceptable to the decoder's table and pairwise different
+    for it, `keysOK`) — every protocol 1..5, both StrictUnicode settings (the same on both sides) and
+    both PyDict settings: if `Encode` returns no error, then `Decode` of exactly the bytes it wrote
+    succeeds, consumes all of them, and returns a value that represents `v` (`Rep`: identical in type
+    and content; ByteString comes back as string when StrictUnicode is off; a map comes back as Dict
+    with PyDict on and the other way round; big ints are fresh objects).  The decoder may start from
+    any state (memo and heap left by earlier pickles of the stream).
+    Not covered here (tied by correspondence): protocol 0 (text codecs, float text); `*big.Int` keys
+    of builtin maps (pointer identity); Tuple / Call keys are covered for Dicts only (a builtin map
+    cannot hold them). -/
 theorem C03_roundtrip_bin (ip : IsPrint) (c : ECfg) (cfg : Cfg) (v : GoVal)
     (hp1 : 1 ≤ c.proto) (hp5 : c.proto ≤ 5) (hsu : cfg.su = c.su)
-    (hc : canon v = true) (he : (encodeTop ip c none v).err = none) (st0 : DState) :
+    (hc : canon cfg v = true) (he : (encodeTop ip c none v).err = none) (st0 : DState) :
     ∃ r st', decode (goCfg cfg) none st0 (flat (encodeTop ip c none v)) = (.ok r, st', []) ∧
       Rep (goCfg cfg) st'.heap r v := by
   have hrange : (0 ≤ c.proto ∧ c.proto ≤ 5) := ⟨by omega, hp5⟩
@@ -88,5 +95,20 @@ theorem C03_roundtrip_bin (ip : IsPrint) (c : ECfg) (cfg : Cfg) (v : GoVal)
     simp only [flat] at hrun'
     rw [hrun', decodeLoop_stop (goCfg cfg) none F _ st2 r [] [] hs2 hrep.not_mark]
     exact ⟨r, _, rfl, hrep⟩
+
+end Ogorek
+
+namespace Ogorek
+
+/-- Non-vacuity: a nested value with a Dict keyed by an int, a tuple holding a big int and a NaN, and a
+    string meets the theorem's hypotheses (PyDict on), and so does a builtin map (PyDict off). -/
+example : canon { pyDict := true, su := true }
+    (.list [.dict [(.int 1, .str (sb "a")), (.tuple [.big 7 (2 ^ 70), .float 0x7ff8000000000001], .none), (.bytestr (sb "k"), .list [])],
+            .call (sb "mod") (sb "fn") [.bytes [1, 2, 3], .ref (.str (sb "oid"))], .bytearray [0, 255]]) = true := by
+  decide
+
+example : canon { pyDict := false, su := false }
+    (.tuple [.map [(.int 1, .str (sb "a")), (.float 0, .none), (.str (sb "k"), .map [])], .big 3 (-5)]) = true := by
+  decide
 
 end Ogorek
